@@ -282,6 +282,17 @@ func (r *vfC20Run) history(rng *rand.Rand, ids []uint32, steps int) {
 			id := r.nframes
 			switch {
 			case kind < 2 || len(open) == 0:
+				if len(open) > 0 && rng.Intn(2) == 0 {
+					// a control frame that names a stream without belonging to it: RST_STREAM as serverConn.resetStream queues it
+					// (stream == nil, StreamID() != 0) - control all the same
+					s := open[rng.Intn(len(open))]
+					if !r.guard("push", func() { r.ws.Push(FrameWriteRequest{write: StreamError{StreamID: s, Code: ErrCode(1000 + id)}}) }) {
+						return
+					}
+					r.origLen[id] = 0
+					r.emit(vfC20Ev{"op": "push", "k": "C", "s": 0, "len": 0, "names_stream": s})
+					break
+				}
 				if !r.guard("push", func() { r.ws.Push(FrameWriteRequest{write: vfCtlFrame{id}}) }) {
 					return
 				}
@@ -353,6 +364,8 @@ func (r *vfC20Run) history(rng *rand.Rand, ids []uint32, steps int) {
 				switch w := wr.write.(type) {
 				case vfCtlFrame:
 					ev["id"], ev["k"], ev["whole"] = w.id, "C", true
+				case StreamError:
+					ev["id"], ev["k"], ev["whole"] = int(w.Code)-1000, "C", true
 				case vfHdrFrame:
 					ev["id"], ev["k"], ev["s"], ev["whole"] = w.id, "H", wr.StreamID(), true
 				case *writeData:
